@@ -23,6 +23,7 @@ import vcheck as V
 
 PID = "C16"
 LEVEL = "other"
+WORKERS = int(os.environ.get("VERIF_TLC_WORKERS", "8"))     # <= 8; the builders ran with 4 on the shared machine
 
 
 def small_types():
@@ -31,7 +32,8 @@ def small_types():
     return [x.strip().strip('"') for x in m.group(1).replace("\n", " ").split(",")]
 
 
-EXT_TYPES = ("Block", "SendBlock", "SyncMessage", "CompactBlock", "RelayMessage")
+# the bare types only: through the messages (SendBlock, SyncMessage, RelayMessage) the handlers' guards must stop it
+EXT_TYPES = ("Block", "CompactBlock")
 
 
 def finding_key(m):
@@ -84,7 +86,7 @@ def small_buffers(c, tier, strict_only=False):
     out = os.path.join(V.workdir(c.pid), "molbuf.csv")
     if os.path.exists(out):
         os.remove(out)
-    res = V.tlc(c.pid, "MC_MolBuf", cfg, workers=8, timeout=1500, xmx="10g", env={"MOLBUF_OUT": out})
+    res = V.tlc(c.pid, "MC_MolBuf", cfg, workers=WORKERS, timeout=1500, xmx="10g", env={"MOLBUF_OUT": out})
     if res["violated"]:
         c.violation("model/" + res["violated"], "Molecule.tla violates its own law %s (%s)" % (res["violated"], cfg),
                     {"kind": "model", "cfg": cfg, "tlc_tail": res["out"][-3000:]})
@@ -118,7 +120,7 @@ def enumerate_mutations(c, cfg, timeout):
     import glob
     import shutil
     outdir = V.workdir(PID, "muts", fresh=True)
-    res = V.tlc(PID, "MC_C16Mut", cfg, workers=8, timeout=timeout, xmx="10g", env={"C16_OUT": outdir})
+    res = V.tlc(PID, "MC_C16Mut", cfg, workers=WORKERS, timeout=timeout, xmx="10g", env={"C16_OUT": outdir})
     if res["violated"]:
         c.violation("model/" + res["violated"], "the mutation model violates %s (%s)" % (res["violated"], cfg),
                     {"kind": "model", "module": "MC_C16Mut", "cfg": cfg, "tlc_tail": res["out"][-3000:]})
@@ -260,7 +262,7 @@ def replay(path, tier):
     elif p["kind"] == "recon":
         replay_recon(c, [p["record"]], tag="replay_recon")
     else:
-        res = V.tlc(PID, p.get("module", "MC_MolBuf"), p["cfg"], workers=8, xmx="8g",
+        res = V.tlc(PID, p.get("module", "MC_MolBuf"), p["cfg"], workers=WORKERS, xmx="8g",
                     env={"MOLBUF_OUT": os.path.join(V.workdir(PID), "replay.csv"), "C16_OUT": V.workdir(PID, "muts", fresh=True)})
         if res["violated"]:
             c.violation("model/" + res["violated"], "model violation", p)
